@@ -138,7 +138,7 @@ def run(R):
     R.rule = RULE
     rng = R.rng
     quick = R.tier == "quick"
-    n = 260 if quick else 6000
+    n = 1100 if quick else 9000
     datasets = [(witness_dataset(), None, "in memory")]
     datasets[0] = (datasets[0][0], L.order_ops(datasets[0][0], rng, "sorted"), "in memory")
     for i in range(n):
@@ -148,7 +148,7 @@ def run(R):
         datasets.append((ds, L.order_ops(ds, rng, order), strategy))
         R.count(f"order:{order}")
     # all permutations of tiny chunk sets (one minishard, <= 4 or 5 entries)
-    for _ in range(6 if quick else 60):
+    for _ in range(14 if quick else 80):
         k = rng.randrange(2, 5 if quick else 6)
         ds = L.gen_dataset(rng, 10 ** 6)
         if len(ds["sel"]) < k:
